@@ -21,12 +21,13 @@ LEVEL_TEXT = ("Coq theorems over an executable model of the labelled dense matri
 LEVEL_NOTE = ("trusted: Coq kernel + vm_compute; the hand-written model of numpy.take/delete/insert/append/concatenate/lexsort/unique "
               "(index plans + gather), validated only differentially on the generated histories; the two ast translators; the harness "
               "encoding of label values as integers (names <-> codes, k/8 floats, bools) and the rounding of DenseBreedingValueMatrix.unscale(); "
-              "not proved: concat refinement, block-diagonal adjoin of the square classes, masked-genotyping metadata (all three are covered "
-              "by the correspondence and the predicate only); DenseBreedingValueMatrix is observed through unscale() and only along the taxa axis "
+              "not proved: block-diagonal adjoin/append of the square classes and the Rep-refinement of the genotyping protocols (covered by the "
+              "correspondence and the predicate only); DenseBreedingValueMatrix is observed through unscale() and only along the taxa axis "
               "(scaling is C15); DenseCoancestryMatrix is abstract and exercised through DenseMolecularCoancestryMatrix")
 TECHNIQUE = "Coq proof (refinement to entity lists, invariants over histories) over an executable model; in-Coq vm_compute correspondence of operation histories; ast translation validation"
 RULE = ("case = (class, initial matrix given by entity ids per axis + which label arrays exist, operation history, label table); one PRNG; "
-        "60 (thorough 300) histories of 1..12 (1..40) operations per class for 13 classes plus 30 (400) grouped->genotyping histories; axis lengths 1..5, "
+        "60 (thorough 300) histories of 1..12 (1..40) operations per class for 13 classes plus 30 (400) grouped->genotyping histories and 16 (150) "
+        "group-one-axis-then-operate-on-the-other histories for each of the 6 two-/three-axis classes; axis lengths 1..5, "
         "operands 1..3 entities, labels drawn with duplicates or unique, label arrays all/none/random present, index arguments int/slice/list/ndarray/mask "
         "incl. negative and duplicated indices, operands passed as matrix / ndarray+keywords / bare ndarray, both forms of every operation, ~7% "
         "deliberately invalid arguments (out-of-range, wrong axis, missing required array); non-trivial = >= 2 executed steps of which one changes a "
@@ -1145,6 +1146,48 @@ def gen_geno_case(rng, nops):
     case["tab"] = G.tab
     return case
 
+def gen_cross_case(rng, clsname):
+    """group one axis, then operate on the *other* labelled axes: the metadata and labels of the grouped axis must survive"""
+    G = _Gen(rng, clsname, 5, "quick")
+    C = G.C
+    init = G.init()
+    for f in init["present"]:
+        if rng.random() < 0.8: init["present"][f] = True
+    case = {"cls": clsname, "init": init, "ops": []}
+    if C.get("ploidy"): case["ploidy"] = rng.choice([1, 2, 3, 4])
+    S = spec_init(C, G.tab, init)
+    if C.get("ploidy"): S["ploidy"] = case["ploidy"]
+    gk = [k for k in C["lkinds"] if KINDS[k]["meta"] and init["present"].get(KINDS[k]["meta"])]
+    rng.shuffle(gk)
+    for k in gk[:rng.choice([1, 1, 2])]:
+        a = rng.choice(kind_axes(C, k))
+        op = {"k": "group", "ax": k, "form": rng.choice(["s", "g"]), "gax": a}
+        try:
+            S, _ = spec_step(C, G.tab, S, op)
+        except Invalid:
+            continue
+        case["ops"].append(op)
+    grouped = [k for k in C["lkinds"] if S["grouped"].get(k)]
+    n = 0
+    for _ in range(60):
+        if n >= rng.choice([1, 2, 3]): break
+        cand = G.one_op(S, last=False)
+        if cand is None: break
+        if cand["k"] == "genotype" or not cand.pop("_valid", True) or is_terminal(C, cand): continue
+        if grouped and cand["ax"] in grouped and rng.random() < 0.9: continue          # stay on the other axes
+        if cand["k"] in ("group", "ungroup", "lexsort"): continue
+        try:
+            T, _ = spec_step(C, G.tab, S, cand)
+        except Invalid:
+            continue
+        if C.get("bv") and not S.get("unit", True): cand["nocp"] = True
+        case["ops"].append(cand); S = rebase_like_impl(C, T, cand); n += 1
+    case["tab"] = G.tab
+    return case
+
+CROSS = ["DenseTaxaVariantMatrix", "DensePhasedTaxaVariantMatrix", "DenseTaxaTraitMatrix", "DenseSquareTaxaTraitMatrix",
+         "DenseGenotypeMatrix", "DensePhasedGenotypeMatrix"]
+
 def gen_cases(rng, tier):
     cases = []
     per = 60 if tier == "quick" else 300
@@ -1155,6 +1198,9 @@ def gen_cases(rng, tier):
             cases.append(gen_history(rng, cn, nops, tier))
     for j in range(30 if tier == "quick" else 400):
         cases.append(gen_geno_case(rng, 4))
+    for cn in CROSS:
+        for j in range(16 if tier == "quick" else 150):
+            cases.append(gen_cross_case(rng, cn))
     return cases
 
 def search_cases(rng):
